@@ -79,3 +79,60 @@ pub fn run(args: &[&str]) -> (String, Option<String>) {
     let p = problems.lock().unwrap();
     ("oracle-only".into(), p.first().cloned())
 }
+
+// ------------------------------------------------------------------------------------------------ a stalled driver (oracle only)
+/// The peer stops reading while the driver is in the middle of writing a large request (the transport's buffer is small), `n` further
+/// operations are started on clones, then one with a timeout: it must return Timeout at its deadline although the driver has not even
+/// dequeued it (C12); when the peer reads again everything else completes with its own answer (C01), and afterwards no id and no routing
+/// entry is left (C13). Paused clock, current-thread runtime, in-memory transport: no real time involved.
+pub fn gen_stall(rng: &mut Rng, n: usize, out: &mut Vec<String>) {
+    for _ in 0..n { out.push(format!("stall {} {} {}", *rng.pick(&[3u32, 40, 300, 700]), *rng.pick(&[200_000u32, 1_000_000]), *rng.pick(&[1u32, 300, 5000]))); }
+}
+pub fn run_stall(args: &[&str]) -> (String, Option<String>) {
+    let n: usize = args[0].parse().unwrap(); let big: usize = args[1].parse().unwrap(); let tmo: u64 = args[2].parse().unwrap();
+    let rt = crate::sess::runtime();
+    let res = std::panic::catch_unwind(std::panic::AssertUnwindSafe(|| rt.block_on(async move {
+        let (client, mut server) = tokio::io::duplex(16 * 1024);
+        let (conn, ldap) = LdapConnAsync::verif_new(Box::new(client));
+        let gauges = conn.verif_gauges(); let table = ldap.verif_id_table_handle();
+        tokio::spawn(async move { let _ = conn.drive().await; });
+        let problems: Arc<Mutex<Vec<String>>> = Arc::new(Mutex::new(vec![]));
+        // 1. the large request: the driver gets stuck writing it
+        let mut l0 = ldap.clone();
+        let h0 = tokio::spawn(async move { l0.add("cn=big", vec![("blob".as_bytes().to_vec(), [vec![b'x'; big]].into_iter().collect::<HashSet<Vec<u8>>>())]).await.map(|r| r.text) });
+        crate::sess::settle().await;
+        // 2. n operations queue up behind it
+        let mut hs = vec![];
+        for k in 0..n { let mut l = ldap.clone(); let p = problems.clone(); hs.push(tokio::spawn(async move {
+            let dn = format!("cn=q-{}", k);
+            match l.delete(&dn).await { Ok(r) => { if r.text != dn { p.lock().unwrap().push(format!("operation {} was handed the answer to {}", dn, r.text)); } } Err(e) => p.lock().unwrap().push(format!("operation {} failed: {:?}", dn, e)) } })); }
+        crate::sess::settle().await;
+        // 3. the timed operation: started now, the clock then reaches its deadline
+        let mut lt = ldap.clone(); lt.with_timeout(Duration::from_millis(tmo));
+        let ht = tokio::spawn(async move { lt.delete("cn=timed").await });
+        crate::sess::settle().await;
+        tokio::time::advance(Duration::from_millis(tmo)).await; crate::sess::settle().await;
+        if !ht.is_finished() { problems.lock().unwrap().push(format!("the operation with a {} ms timeout is still waiting at its deadline (the driver is stalled in a write)", tmo)); }
+        // 4. the peer reads again and answers everything (the timed one too: that answer must reach nobody)
+        let mut inbuf: Vec<u8> = vec![]; let mut buf = vec![0u8; 65536];
+        let mut answered = 0usize; let want = n + 2;
+        for _ in 0..200000 {
+            match futures_util::FutureExt::now_or_never(server.read(&mut buf)) { Some(Ok(0)) | Some(Err(_)) => break, Some(Ok(k)) => inbuf.extend_from_slice(&buf[..k]), None => { crate::sess::settle().await; if answered >= want { break; } tokio::time::advance(Duration::from_millis(1)).await; } }
+            loop { let mut min = true; let (t, used) = match ownber::read(&inbuf, &mut min, 0) { ownber::Own::Ok(t, u) => (t, u), _ => break }; inbuf.drain(..used);
+                let k = match &t.payload { PL::C(k) => k.clone(), _ => continue }; if k.len() < 2 { continue; }
+                let id = match &k[0].payload { PL::P(v) => ownber::twos(v).unwrap_or(-1) as i64, _ => -1 };
+                let (app, token): (u64, Vec<u8>) = match &k[1].payload { PL::P(v) => (11, v.clone()), PL::C(kk) => (9, match kk.first().map(|x| &x.payload) { Some(PL::P(v)) => v.clone(), _ => vec![] }) };
+                let mut e = vec![]; ownber::write(&message(id, ldap_result(app, 0, b"", &token, None), None), &mut e, &mut |_| 0);
+                let _ = server.write_all(&e).await; answered += 1; }
+        }
+        crate::sess::settle().await;
+        match h0.await { Ok(Ok(t)) if t == "cn=big" => {} other => problems.lock().unwrap().push(format!("the large Add did not complete with its own answer: {:?}", other.map(|r| r.map_err(|e| format!("{:?}", e))))) }
+        for h in hs { let _ = h.await; }
+        match ht.await { Ok(Err(ldap3::LdapError::Timeout { .. })) => {} Ok(other) => problems.lock().unwrap().push(format!("the timed operation must return a timeout error, it returned {:?}", other.map(|r| r.text).map_err(|e| format!("{:?}", e)))), Err(_) => problems.lock().unwrap().push("the timed operation's task panicked".into()) }
+        crate::sess::settle().await;
+        let left = { let m = table.lock().unwrap(); let g = gauges.lock().unwrap(); (m.1.len(), g.0.len(), g.1.len()) };
+        if left != (0, 0, 0) { problems.lock().unwrap().push(format!("every operation is over but {} ids are still reserved and {}/{} routing entries remain", left.0, left.1, left.2)); }
+        let p = problems.lock().unwrap(); p.first().cloned()
+    })));
+    match res { Ok(o) => ("oracle-only".into(), o), Err(_) => ("oracle-only".into(), Some("the stalled-driver scenario panicked".into())) }
+}
